@@ -215,7 +215,7 @@ func init() {
 	vh.AddPart("C07", "lib-conc", "sim", vh.Opts{Shards: 16, TimeoutS: 300, TimeoutSThorough: 3000},
 		func(e *vh.Env) []c07Conc {
 			var cs []c07Conc
-			for _, kind := range []string{"boundary", "inside"} {
+			for _, kind := range []string{"boundary", "inside", "straggler"} {
 				for _, mr := range []int{1, 2} {
 					for _, st := range []int{1, 2} {
 						for _, acts := range []string{"SS", "SF", "FS", "FF"} {
@@ -239,6 +239,17 @@ func init() {
 					OnStateChange: func(name string, from, to circuitbreaker.State) {
 						journal = append(journal, c07Ev{Kind: "state", From: from.String(), To: to.String()})
 					}})
+				// "straggler": a request admitted while the breaker was still closed is in flight during the whole
+				// episode; its late success is not a trial and must not close the breaker
+				release := make(chan struct{})
+				stragglerDone := make(chan struct{})
+				if c.Kind == "straggler" {
+					go func() {
+						defer close(stragglerDone)
+						_ = cb.Execute(func() error { <-release; return nil })
+					}()
+					time.Sleep(time.Nanosecond) // it is inside the protected function now
+				}
 				// trip it
 				_ = cb.Execute(func() error { return errFail })
 				time.Sleep(31 * time.Second)
@@ -271,6 +282,9 @@ func init() {
 						journal = append(journal, c07Ev{Kind: "ret", Actor: i, Err: es})
 					})
 				}
+				if c.Kind == "straggler" {
+					s.Go(func() { close(release); <-stragglerDone })
+				}
 				return func(s *vh.Sched, r vh.SchedResult) {
 					o.Obs("schedules", 1)
 					if r.Deadlock {
@@ -296,7 +310,7 @@ func init() {
 						case "state":
 							if ev.To == "CLOSED" {
 								if succ < c.ST {
-									o.Viol("C07|conc|closed-early", fmt.Sprintf("%s actors=%s mr=%d st=%d: closed after %d successful trials; trace %v", c.Kind, c.Actors, c.MR, c.ST, succ, s.Trace), map[string]any{"trace": s.Trace, "prefix": s.Choices, "journal": journal})
+									o.Viol("C07|conc|closed-early|"+c.Kind, fmt.Sprintf("%s actors=%s mr=%d st=%d: closed after %d successful trials; trace %v", c.Kind, c.Actors, c.MR, c.ST, succ, s.Trace), map[string]any{"trace": s.Trace, "prefix": s.Choices, "journal": journal})
 								}
 								closed = true
 							}
